@@ -17,7 +17,9 @@ REDUCE_KEYS = ["pdb"]
 LEVEL = "exploration"
 RULE = ("whole reference proteins with threaded clusters of like groups around buried positions (ASP/GLU pairs and "
         "triples, HIS/HIS, CYS/CYS, LYS/ARG, mixed; library ions/ligands next to the cluster), the reference proteins "
-        "themselves and corpus-derived balls; each run with the analysis on and off in the same process. Non-trivial: "
+        "themselves and corpus-derived balls; each run with the analysis on and off in the same process; drawn "
+        "parameter files (sharing / removal / charge-centre switches, wider coupling thresholds) and verbosity options "
+        "(--log-level DEBUG/WARNING, -q). Non-trivial: "
         "the analysis swapped at least one pair past the interaction-energy gate (counted by wrapping "
         "swap_interactions from the harness) and found >= 1 coupled pair; distinct by hash of the input.")
 ASSUMPTIONS = ["determinant lists are compared as multisets per type: swapping and swapping back re-orders the list"]
@@ -71,6 +73,7 @@ def check_case(case):
         if case.get("loose"):
             changes.update(LOOSE)
         opt = cfgs.options({"changes": changes})
+    opt = list(opt) + list(case.get("extra_opt") or [])
     ron, swaps = run_with(text, True, count_swaps=True, opt=opt)
     roff, _ = run_with(text, False, opt=opt)
     if ron["error"] or roff["error"]:
@@ -254,13 +257,17 @@ def run_shard(ctx):
         if s.info.get("mutated") and len(s.text) % 3 == 0:
             text, tw = twinned(s, "A")
         case = {"pdb": text}
+        if len(text) % 7 in (0, 1, 2):
+            # verbosity options must not change what the analysis does
+            case["extra_opt"] = [["--log-level", "DEBUG"], ["-q"], ["--log-level", "WARNING"]][len(text) % 7]
+            s.labels.append("verbosity-option")
         if len(text) % 5 == 0:
             case["flags"] = FLAGSETS[1 + (len(text) // 5) % 4]
             case["loose"] = bool((len(text) // 20) % 2)
             s.labels.append("coupling-switches")
         s.labels.append("label-twins") if tw else None
         v, info = check_case(case)
-        info["labels"] = info.get("labels", []) + [l for l in s.labels if l.startswith("cluster:") or l in ("label-twins", "alt-loc-rotamers", "coupling-switches")]
+        info["labels"] = info.get("labels", []) + [l for l in s.labels if l.startswith("cluster:") or l in ("label-twins", "alt-loc-rotamers", "coupling-switches", "verbosity-option")]
         info["sample"] = {"structure": s.summary(), "threaded": s.info.get("mutated"), "swap_calls": info.get("swaps")}
         ctx.account(case, v, info)
 
